@@ -23,14 +23,24 @@
 (* A second configuration (constant operator Special) puts errors and text *)
 (* at chosen positions.                                                    *)
 (*                                                                         *)
+(* The lifted array need not be what the formula yields: it may be the     *)
+(* argument of an aggregating function ({=SUM(A*B)}, {=SUM(IFERROR(A,0))}, *)
+(* the usual way of entering an array formula into ONE cell).  The         *)
+(* aggregate is a function of the elements of the lifted array, so the     *)
+(* statement fixes it: every element is the scalar application at its      *)
+(* position.  What the formula yields is then a scalar, and Fit repeats it *)
+(* over the target (flag agg of the machine, action Wrap).                 *)
+(*                                                                         *)
 (* The machine is a sheet with one array formula: its state is the input   *)
 (* (form of the formula, operand shapes, target shape) together with what  *)
 (* the formula yields (res) and what the target's cells show (cells).  By  *)
 (* growing one extent at a time it reaches every (operand shape, operand   *)
 (* shape, target shape) triple up to Max x Max for a binary operator and   *)
 (* every (argument kinds, array shape, target shape) for a function of up  *)
-(* to MaxArgs arguments that are equally shaped arrays or scalars.  Every  *)
-(* state is exported as a vector for the real code.                        *)
+(* to MaxArgs arguments that are equally shaped arrays or scalars, each of  *)
+(* them bare and inside an aggregating function; the target range is every *)
+(* shape from ONE cell to Max x Max.  Every state is exported as a vector  *)
+(* for the real code.                                                      *)
 (***************************************************************************)
 EXTENDS Naturals, Sequences, FiniteSets, TLC, Json
 
@@ -46,9 +56,11 @@ VARIABLES form,    \* "op": binary operator on A (shape sa) and B (shape sb)
           kinds,   \* "fn": sequence of "A" (array of shape sa) / "S" (scalar)
           sa, sb,  \* operand shapes <<h, w>>
           st,      \* shape of the target range of the array formula
+          agg,     \* TRUE: the lifted array is the argument of an aggregating
+                   \* function, the formula yields the aggregate (a scalar)
           res,     \* the lifted result (<<>>: shapes outside the statement)
           cells    \* what the cells of the target range show
-vars == <<form, kinds, sa, sb, st, res, cells>>
+vars == <<form, kinds, sa, sb, st, agg, res, cells>>
 
 --------------------------------------------------------------------------
 (* values: tagged tuples, tag first (TLC cannot compare 1 with "x")        *)
@@ -151,6 +163,16 @@ SumV(es) ==
 
 Ident(es) == es
 
+\* the elements of an array in reading order (row by row)
+Flat(R) ==
+  LET w == Len(R[1])
+  IN  [n \in 1..(Len(R) * w) |-> R[((n - 1) \div w) + 1][((n - 1) % w) + 1]]
+
+\* the aggregating function used on the model side: Excel's SUM over an
+\* array -- the first error in reading order wins, else the sum of the numbers
+\* (a lifted "+" never leaves text: text makes #VALUE! at its position)
+AggV(R) == SumV(Flat(R))
+
 --------------------------------------------------------------------------
 (* the operands of a formula, as a function of the input                   *)
 
@@ -177,7 +199,10 @@ PosArgsOf(shs) ==
 
 \* what the formula yields and what the target shows; <<>> marks operand
 \* shapes that do not broadcast (outside the statement: nothing is claimed)
-ResultOf(shs) == IF Broadcastable(shs) THEN Lift(SumV, ArgsOf(shs)) ELSE <<>>
+\* (g: inside an aggregating function, the formula yields the 1 x 1 aggregate)
+ResultOf(shs, g) ==
+  IF ~Broadcastable(shs) THEN <<>>
+  ELSE LET L == Lift(SumV, ArgsOf(shs)) IN IF g THEN << <<AggV(L)>> >> ELSE L
 CellsOf(R, t)   == IF Len(R) = 0 THEN <<>> ELSE Fit(R, t)
 
 \* ... of the current state
@@ -185,7 +210,8 @@ ArgShapes == ShapesOf(form, kinds, sa, sb)
 NArgs     == Len(ArgShapes)
 Args      == ArgsOf(ArgShapes)
 Defined   == Broadcastable(ArgShapes)
-RShape    == BShape(ArgShapes)
+LShape    == BShape(ArgShapes)                  \* of the lifted array
+RShape    == IF agg THEN Scalar ELSE LShape     \* of what the formula yields
 
 --------------------------------------------------------------------------
 (* the machine                                                             *)
@@ -195,25 +221,29 @@ HasArray    == form = "op" \/ \E p \in DOMAIN kinds : kinds[p] = "A"
 
 Init == /\ form \in {"op", "fn"}
         /\ kinds \in (IF form = "op" THEN {<<>>} ELSE KindVectors)
-        /\ sa = Scalar /\ sb = Scalar /\ st = Scalar
-        /\ res = ResultOf(ShapesOf(form, kinds, sa, sb))
+        /\ sa = Scalar /\ sb = Scalar /\ st = Scalar /\ agg = FALSE
+        /\ res = ResultOf(ShapesOf(form, kinds, sa, sb), agg)
         /\ cells = CellsOf(res, st)
 
 Grow(s, d) == IF d = 1 THEN <<s[1] + 1, s[2]>> ELSE <<s[1], s[2] + 1>>
 
 \* the formula is recalculated whenever an operand or the target changes
-Recalc == /\ res' = ResultOf(ShapesOf(form', kinds', sa', sb'))
+Recalc == /\ res' = ResultOf(ShapesOf(form', kinds', sa', sb'), agg')
           /\ cells' = CellsOf(res', st')
 
 GrowA(d) == /\ HasArray /\ sa[d] < Max
-            /\ sa' = Grow(sa, d) /\ UNCHANGED <<form, kinds, sb, st>>
+            /\ sa' = Grow(sa, d) /\ UNCHANGED <<form, kinds, sb, st, agg>>
             /\ Recalc
 GrowB(d) == /\ form = "op" /\ sb[d] < Max
-            /\ sb' = Grow(sb, d) /\ UNCHANGED <<form, kinds, sa, st>>
+            /\ sb' = Grow(sb, d) /\ UNCHANGED <<form, kinds, sa, st, agg>>
             /\ Recalc
 GrowT(d) == /\ st[d] < Max
-            /\ st' = Grow(st, d) /\ UNCHANGED <<form, kinds, sa, sb>>
+            /\ st' = Grow(st, d) /\ UNCHANGED <<form, kinds, sa, sb, agg>>
             /\ Recalc
+\* the formula is edited: what it yielded becomes the argument of SUM( )
+Wrap == /\ ~agg /\ agg' = TRUE
+        /\ UNCHANGED <<form, kinds, sa, sb, st>>
+        /\ Recalc
 
 TallerA == GrowA(1)
 WiderA  == GrowA(2)
@@ -222,7 +252,7 @@ WiderB  == GrowB(2)
 TallerT == GrowT(1)
 WiderT  == GrowT(2)
 
-Next == TallerA \/ WiderA \/ TallerB \/ WiderB \/ TallerT \/ WiderT
+Next == TallerA \/ WiderA \/ TallerB \/ WiderB \/ TallerT \/ WiderT \/ Wrap
 Spec == Init /\ [][Next]_vars
 
 --------------------------------------------------------------------------
@@ -231,11 +261,12 @@ Spec == Init /\ [][Next]_vars
 TypeOK == /\ form \in {"op", "fn"}
           /\ kinds \in (IF form = "op" THEN {<<>>} ELSE KindVectors)
           /\ sa \in Shapes /\ sb \in Shapes /\ st \in Shapes
+          /\ agg \in BOOLEAN
           /\ (form = "fn" => sb = Scalar)
           /\ (~HasArray => sa = Scalar)
 
 \* res and cells are the definitions applied to the input, in every state
-Recalculated == /\ res = ResultOf(ArgShapes)
+Recalculated == /\ res = ResultOf(ArgShapes, agg)
                 /\ cells = CellsOf(res, st)
                 /\ (Defined <=> Len(res) > 0)
 
@@ -247,7 +278,7 @@ BroadcastCases == form = "op" => (Defined <=> NamedCase(sa, sb))
 FnEqualOrScalar ==
   form = "fn" => /\ EqualOrScalar(ArgShapes)
                  /\ Defined
-                 /\ RShape = (IF HasArray THEN sa ELSE Scalar)
+                 /\ LShape = (IF HasArray THEN sa ELSE Scalar)
 
 \* the lifted result has the broadcast shape, the fitted one the target's
 ShapeExact ==
@@ -269,7 +300,7 @@ At(X, i, j) ==
 ElemsAt(xs, i, j) == [k \in DOMAIN xs |-> At(xs[k], i, j)]
 
 Pointwise ==
-  Defined =>
+  (Defined /\ ~agg) =>
     LET xs == Args
     IN  \A i \in 1..RShape[1], j \in 1..RShape[2] :
           res[i][j] = SumV(ElemsAt(xs, i, j))
@@ -278,7 +309,7 @@ Pointwise ==
 \* operand k contributed its element (i, j), or its single row / column
 Digits(v, k) == (v \div Pow100(NArgs - k)) % 100
 PointwiseDecode ==
-  Defined =>
+  (Defined /\ ~agg) =>
     \A i \in 1..RShape[1], j \in 1..RShape[2] :
        IsNum(res[i][j]) =>
          \A k \in 1..NArgs :
@@ -289,7 +320,7 @@ PointwiseDecode ==
 
 \* a position is an error / #VALUE! exactly when the elements there say so
 PointwiseSpecial ==
-  Defined =>
+  (Defined /\ ~agg) =>
     LET xs == Args
     IN  \A i \in 1..RShape[1], j \in 1..RShape[2] :
           LET es == ElemsAt(xs, i, j)
@@ -297,6 +328,33 @@ PointwiseSpecial ==
               /\ (\E k \in 1..NArgs : IsErr(es[k])) =>
                     \E k \in 1..NArgs : /\ res[i][j] = es[k]
                                         /\ \A l \in 1..(k - 1) : ~IsErr(es[l])
+
+\* inside an aggregating function: the formula yields ONE value, made of the
+\* scalar applications at all the positions of the lifted array -- their sum
+\* when they are numbers, else the error of the first position (in reading
+\* order) whose scalar application is an error
+RECURSIVE SumOver(_, _)
+SumOver(S, val) ==
+  IF S = {} THEN 0
+  ELSE LET p == CHOOSE q \in S : TRUE IN val[p][2] + SumOver(S \ {p}, val)
+Before(q, p) == q[1] < p[1] \/ (q[1] = p[1] /\ q[2] < p[2])
+
+Aggregated ==
+  (Defined /\ agg) =>
+    LET xs     == Args
+        P      == (1..LShape[1]) \X (1..LShape[2])
+        val    == [p \in P |-> SumV(ElemsAt(xs, p[1], p[2]))]
+    IN  /\ ShapeOf(res) = Scalar
+        /\ IF \E p \in P : IsErr(val[p])
+           THEN \E p \in P : /\ IsErr(val[p]) /\ res[1][1] = val[p]
+                              /\ \A q \in P : Before(q, p) => ~IsErr(val[q])
+           ELSE res[1][1] = Num(SumOver(P, val))
+        \* and every cell of the target shows it, whatever the target's shape
+        /\ \A i \in 1..st[1], j \in 1..st[2] : cells[i][j] = res[1][1]
+
+\* putting the formula inside SUM( ) aggregates exactly what it yielded
+WrapAggregates ==
+  [][ (Defined /\ ~agg /\ agg') => res' = << <<AggV(res)>> >> ]_vars
 
 \* the clauses of the statement, one by one
 NotCovered(rs, i, j) == (rs[1] > 1 /\ i > rs[1]) \/ (rs[2] > 1 /\ j > rs[2])
@@ -336,13 +394,13 @@ FitIdempotent == Defined => Fit(cells, st) = cells
 
 \* widening / heightening the target never changes what a member showed
 TargetGrowthStable ==
-  [][ (Defined /\ sa' = sa /\ sb' = sb) =>
+  [][ (Defined /\ sa' = sa /\ sb' = sb /\ agg' = agg) =>
         \A i \in 1..st[1], j \in 1..st[2] : cells'[i][j] = cells[i][j] ]_vars
 
 \* growing an operand along a dimension in which it was not repeated leaves
 \* the result at the old positions alone
 OperandGrowthLocal ==
-  [][ (Defined /\ Defined' /\ st' = st /\
+  [][ (Defined /\ Defined' /\ st' = st /\ ~agg /\ ~agg' /\
          \A d \in 1..2 : /\ (sa'[d] # sa[d] => sa[d] > 1)
                          /\ (sb'[d] # sb[d] => sb[d] > 1)) =>
         \A i \in 1..RShape[1], j \in 1..RShape[2] : res'[i][j] = res[i][j] ]_vars
@@ -352,7 +410,10 @@ OperandGrowthLocal ==
 (* res: the lifted symbolic "+"; sum: what the target cells show for it;   *)
 (* src: per target cell the operand positions it is computed from (<<>>    *)
 (* for an uncovered cell), so that the harness can instantiate any other   *)
-(* operator or function and any other element values.                      *)
+(* operator or function and any other element values.  Inside an           *)
+(* aggregating function a cell is computed from the whole lifted array:    *)
+(* src holds the mark <<"agg">> there and inner the operand positions of   *)
+(* every element of the lifted array.                                      *)
 
 Export ==
   PrintT(ToJson([form    |-> form,
@@ -360,13 +421,16 @@ Export ==
                  sa      |-> sa,
                  sb      |-> sb,
                  st      |-> st,
+                 agg     |-> agg,
                  defined |-> Defined,
                  shapes  |-> ArgShapes,
                  elems   |-> Args,
                  rshape  |-> IF Defined THEN RShape ELSE <<0, 0>>,
-                 src     |-> IF Defined
-                             THEN FitWith(Lift(Ident, PosArgsOf(ArgShapes)), st, <<>>)
-                             ELSE <<>>,
+                 src     |-> IF ~Defined THEN <<>>
+                             ELSE IF agg THEN FitWith(<< << <<"agg">> >> >>, st, <<>>)
+                             ELSE FitWith(Lift(Ident, PosArgsOf(ArgShapes)), st, <<>>),
+                 inner   |-> IF Defined /\ agg
+                             THEN Lift(Ident, PosArgsOf(ArgShapes)) ELSE <<>>,
                  res     |-> res,
                  sum     |-> cells]))
 =============================================================================
